@@ -119,8 +119,8 @@ Proof.
   - (* MemSetKeysets *)
     cbn [is_call fst w_ln w_mem w_active w_db c_ln]. split; [intros _; reflexivity|]. split; [discriminate|]. left. reflexivity.
   - cbn [is_call c_ln]. split; [discriminate|]. split; [intros _|left].
-    + destruct (l_createerr _); cbn [fst w_mem w_active set_ln]; split; reflexivity.
-    + destruct (l_createerr _); cbn [fst w_db set_ln]; reflexivity.
+    + destruct (l_createerr _ || _); cbn [fst w_mem w_active set_ln]; split; reflexivity.
+    + destruct (l_createerr _ || _); cbn [fst w_db set_ln]; reflexivity.
   - cbn [is_call c_ln]. split; [discriminate|]. split; [intros _|left].
     + destruct (l_inverr _); [cbn [fst w_mem w_active]; split; reflexivity|]. destruct (find _ _); cbn [fst w_mem w_active]; split; reflexivity.
     + destruct (l_inverr _); [reflexivity|]. destruct (find _ _); reflexivity.
